@@ -525,7 +525,7 @@ def classify(desc, seq, geo=None):
     for (c, windows) in g["constraints"]:
         kind = c[0]
         if kind == "Sequential":
-            r = _sequential(fm, g, c, seq, T, sustain)
+            r = _sequential(fm, g, c, seq, T, sustain, windows)
         elif kind == "LatinSquare":
             r = _latin(fm, g, c, seq, T, sustain)
         else:
@@ -569,10 +569,13 @@ def _latin(fm, g, c, seq, T, sustain):
     return AMBIG if len(fs) > 1 else VALID
 
 
-def _sequential(fm, g, c, seq, T, sustain):
+def _sequential(fm, g, c, seq, T, sustain, windows=None):
     """constraints.rst: the levels of the factor appear in order, restarting with the first level after the last.
     Which level the sequence starts with, and what happens in preamble trials, is not stated: only the cyclic successor
-    relation between consecutive (groups of) crossing trials is demanded; a start other than the first level is AMBIG."""
+    relation between consecutive (groups of) crossing trials is demanded; a start other than the first level is AMBIG.
+    A Sequential given to a block that was later combined is read per repetition window like every other block
+    constraint (main.rst, Merge: "Constraints associated with a block ... apply to individual repetitions"; Nest: the
+    inner block is repeated): the successor relation is demanded inside each repetition, not across its boundary."""
     f = c[1]
     names = level_names(fm[f])
     n = len(names)
@@ -581,13 +584,19 @@ def _sequential(fm, g, c, seq, T, sustain):
         if f in cr["factors"]:
             start = cr["start"]
     cs = sustain[f]
-    vals = [seq[f][t] for t in range(start, T, cs)]
-    for a, b in zip(vals, vals[1:]):
-        if names.index(b) != (names.index(a) + 1) % n:
-            return INVALID
-    if vals and vals[0] != names[0]:
-        return AMBIG
-    return VALID
+    ws = windows if windows else [(0, T)]
+    off = max(start - ws[0][0], 0)          # preamble trials at the head of a repetition window
+    res = VALID
+    for j, (s, e) in enumerate(ws):
+        lo = s + off
+        hi = ws[j + 1][0] + off if j + 1 < len(ws) else T
+        vals = [seq[f][t] for t in range(lo, min(hi, T), cs)]
+        for a, b in zip(vals, vals[1:]):
+            if names.index(b) != (names.index(a) + 1) % n:
+                return INVALID
+        if vals and vals[0] != names[0]:
+            res = AMBIG
+    return res
 
 
 # --------------------------------------------------------------------------------------------- enumeration of the valid set
